@@ -108,19 +108,37 @@ def run(R, pid):
     if b is None:
         return R.finish()
     exe, h = b
-    n = 240 if R.quick else 8000
+    batches = [(240, R.seed)] if R.quick else [(500, R.seed * 1000 + k) for k in range(12)]
     corpus = [os.path.join(vlib.VERIF, "corpus", "C03"), os.path.join(vlib.VERIF, "corpus", "C12")]
-    trace, out = run_harness(R, h, n, R.seed, corpus)
-    if trace is None:
-        R.oracle_failure("harness-crash", "the Go harness aborted (panic outside recover?)", dict(output=out[-3000:]))
-        return R.finish()
-    text = open(trace, errors="replace").read()
-    lines = text.split("\n")
-    rc, rout = vlib.sh(exe, stdin=text, timeout=3000)
-    open(os.path.join(R.work, "runner.out"), "w").write(rout)
-    rep = Report(rout, lines)
-    if rep.done is None:
-        R.proof_problems.append("runner did not finish: " + rout[-300:])
+    lines, rout_all, spec_all, div_all, bad_all, skip_all, compared = [], [], [], [], [], 0, 0
+    for bi, (n, seed) in enumerate(batches):
+        trace, out = run_harness(R, h, n, seed, corpus if bi == 0 else [], tag=str(bi) if bi else "")
+        if trace is None:
+            R.oracle_failure("harness-crash", "the Go harness aborted (panic outside recover?)", dict(output=out[-3000:], seed=seed))
+            return R.finish()
+        text = open(trace, errors="replace").read()
+        blines = text.split("\n")
+        rc, rout = vlib.sh(exe, stdin=text, timeout=3000)
+        open(os.path.join(R.work, "runner.out" + (str(bi) if bi else "")), "w").write(rout)
+        rep1 = Report(rout, blines)
+        if rep1.done is None:
+            R.proof_problems.append("runner did not finish (batch %d): %s" % (bi, rout[-300:]))
+        else:
+            compared += rep1.done[1]
+        base = len(lines)
+        for it in rep1.spec:
+            it["line"] += base
+        for it in rep1.diverge:
+            it["line"] += base
+        spec_all += rep1.spec; div_all += rep1.diverge; bad_all += rep1.bad; skip_all += rep1.skip
+        # keep only what the report needs from big batches: the lines referenced and the MK lines (context), others truncated
+        if len(batches) > 1:
+            blines = [l if (l.startswith(("MKDATA", "MKINT", "#", "SFACT", "TAMPER")) or len(l) < 400) else l[:400] for l in blines]
+        lines += blines
+        if bi and os.path.exists(trace):
+            os.remove(trace)
+    rep = Report("", lines)
+    rep.spec, rep.diverge, rep.bad, rep.skip, rep.done = spec_all, div_all, bad_all, skip_all, [len(lines), compared, skip_all]
     for l in rep.bad[:3]:
         R.proof_problems.append("runner could not parse: " + l[:200])
     # coverage
